@@ -1,7 +1,7 @@
 (* C14 - the property theorems, nothing else.  Each is closed by [exact] of a lemma proved in coq/Persist/*Proofs.v
    and followed by Print Assumptions. *)
 From Icv Require Import Base.Tac Persist.PsValue Persist.PsModel Persist.PsValueProofs
-  Persist.PsAtomicProofs Persist.PsRestoreProofs Persist.PsRoundtripProofs Persist.PsStateProofs Persist.PsModattrProofs.
+  Persist.PsAtomicProofs Persist.PsRestoreProofs Persist.PsRoundtripProofs Persist.PsStateProofs Persist.PsModattrProofs Persist.PsFrameProofs Persist.PsSeqProofs.
 From Coq Require Import NArith.
 Local Open Scope N_scope.
 
@@ -69,6 +69,55 @@ Theorem C14_restore_oracle_accepts_model : forall fe attr v now1 now2 o o1,
   ps_get_attr attr o2 = ps_get_attr attr o /\ ps_orig_mentions attr o2 = false.
 Proof. exact ps_restore_oracle_accepts. Qed.
 Print Assumptions C14_restore_oracle_accepts_model.
+
+(* frame: ModifyAttribute on p (whatever its outcome) leaves the value at every path q that is token-incomparable
+   with p (neither dotted path is a prefix of the other) untouched; it records at most the one entry p -> old value *)
+Theorem C14_modify_frame : forall fe p v now o ok o',
+  ps_modify_attribute fe p v true now o = (ok, o') ->
+  ps_cfg_field fe p -> ps_is_dict (ps_get_attr p o) = false ->
+  (forall q, ps_incomp p q -> ps_get_attr q o' = ps_get_attr q o) /\
+  (ps_orig_dict o' = ps_orig_dict o \/
+   (ps_dcontains p (ps_orig_dict o) = false /\ ps_orig_dict o' = ps_dset p (ps_get_attr p o) (ps_orig_dict o))) /\
+  (ps_dcontains p (ps_orig_dict o') = true \/ ps_m_fields o' = ps_m_fields o).
+Proof. exact ps_modify_spec. Qed.
+Print Assumptions C14_modify_frame.
+
+(* frame: RestoreAttribute on p, when the only original_attributes entries at or below p are keyed p itself *)
+Theorem C14_restore_frame : forall fe p now o ok o' x,
+  ps_restore_attribute fe p true now o = (ok, o') ->
+  ps_own_only p x (ps_orig_dict o) ->
+  (forall fi, ps_filookup fe (ps_field_of p) = Some fi -> ps_coerce fi x = x) ->
+  (forall q, ps_incomp p q -> ps_get_attr q o' = ps_get_attr q o) /\
+  (forall kx, In kx (ps_orig_dict o') <-> In kx (ps_orig_dict o) /\ (ok = true -> fst kx <> p)) /\
+  (ok = true -> ps_get_attr p o' = if ps_dcontains p (ps_orig_dict o) then x else ps_get_attr p o) /\
+  (ok = false -> o' = o).
+Proof. exact ps_restore_spec. Qed.
+Print Assumptions C14_restore_frame.
+
+(* THE SEQUENCE THEOREM.  P: any set of dotted paths of configuration attributes that are pairwise token-incomparable
+   (negated signature of restore-overlap), o0: the object as configured (values of the fields' types, nothing modified).
+   For EVERY history h of ModifyAttribute / RestoreAttribute calls on paths of P - the same path any number of times,
+   succeeding or failing - in which no ModifyAttribute meets a dictionary at its path (negated signature of
+   restore-dict-original), and for every list rs of restore calls on paths of P that covers the modified paths, in any
+   order, all reporting success: every path of P and every path incomparable with P reads exactly as configured, and
+   original_attributes is empty. *)
+Theorem C14_restore_sequence : forall fe P o0,
+  (forall p p', In p P -> In p' P -> p <> p' -> ps_incomp p p') ->
+  (forall p, In p P -> ps_cfg_field fe p) ->
+  (forall p, In p P -> forall fi, ps_filookup fe (ps_field_of p) = Some fi -> ps_coerce fi (ps_get_attr p o0) = ps_get_attr p o0) ->
+  forall h rs,
+  ps_orig_dict o0 = [] ->
+  ps_hist_ok fe P o0 h ->
+  let o := ps_run fe o0 h in
+  (forall r, In r rs -> In (fst r) P) ->
+  (forall k x, In (k, x) (ps_orig_dict o) -> In k (map fst rs)) ->
+  ps_run_ok fe o (ps_restores rs) = true ->
+  let o' := ps_run fe o (ps_restores rs) in
+  (forall p, In p P -> ps_get_attr p o' = ps_get_attr p o0) /\
+  (forall q, (forall p, In p P -> ps_incomp p q) -> ps_get_attr q o' = ps_get_attr q o0) /\
+  ps_orig_dict o' = [].
+Proof. exact ps_restore_sequence. Qed.
+Print Assumptions C14_restore_sequence.
 
 Theorem C14_restore_dict_original_refuted :
   (* original value an empty dictionary: nothing recorded, restore is a no-op *)
@@ -167,6 +216,17 @@ Print Assumptions C14_atomic_oracle_accepts_model.
 
 (* non-vacuity: the premises of C14_restore are met by a nested path whose leaf does not exist; the value at the path
    returns to null, while the enclosing dictionary keeps a null entry (observation "null leaf") *)
+Example C14_restore_sequence_nonvacuous :
+  ps_incomp ps_q_a ps_q_bc /\ ps_incomp ps_q_a ps_q_xyz /\ ps_incomp ps_q_a ps_q_n /\
+  ps_incomp ps_q_bc ps_q_xyz /\ ps_incomp ps_q_bc ps_q_n /\ ps_incomp ps_q_xyz ps_q_n /\
+  ps_hist_ok ps_q_fe ps_q_P ps_q_o0 ps_q_h /\
+  ps_run_ok ps_q_fe (ps_run ps_q_fe ps_q_o0 ps_q_h) (ps_restores ps_q_rs) = true /\
+  map fst (ps_orig_dict (ps_run ps_q_fe ps_q_o0 ps_q_h)) = [ps_q_n; ps_q_a; ps_q_bc; ps_q_xyz] /\
+  ps_orig_dict (ps_run ps_q_fe (ps_run ps_q_fe ps_q_o0 ps_q_h) (ps_restores ps_q_rs)) = [] /\
+  ps_dget [118; 97; 114; 115] (ps_m_fields (ps_run ps_q_fe (ps_run ps_q_fe ps_q_o0 ps_q_h) (ps_restores ps_q_rs)))
+    = PsDict [([97], PsNum 5 0); ([98], PsDict [([99], PsEmpty); ([100], PsBool true)]); ([120], PsDict [([121], PsEmpty)])].
+Proof. exact ps_restore_sequence_nonvacuous. Qed.
+
 Example C14_modattr_nonvacuous :
   ps_orig_dict ps_r_base = [] /\
   ps_orig_dict ps_r_cur <> [] /\
